@@ -14,7 +14,9 @@ an embedded element is accepted iff it is the canonical encoding of a subgroup e
 repaired validating decode accepts (`Proofs/EncodeProofs.lean`: `unmarshalParams_canonicalDecoders`, …: same result
 as over `checkedDecoders` for every buffer).  A buffer is *valid* iff this parse succeeds: then `unmarshal` must
 accept it with `checked` set or clear and produce the parsed object; otherwise `unmarshal(…, checked = true)` must
-reject it, and the outcome of the non-validating call is unspecified. -/
+reject it, and the outcome of the non-validating call is unspecified.
+The LQ-IBE objects (`lq_m`, `lq_um`, `lq_msk`) go through the object-level models `lqMarshal*` / `lqUnmarshal*` /
+`lq*Len` of the same file (theorems: `Properties/C15c.lean`). -/
 def umD : Decoders := canonicalDecoders ateSpec
 
 /-- the concrete environment of LQ-IBE: Spec pairing, compressed encoders, big-endian Fq12 bytes -/
@@ -256,6 +258,13 @@ def judgeScheme2 (op : String) (out : List String) : PS Bool := do
         else
           if out.head? == some "1" then setSt { st with lqCts := st.lqCts.push (.inf, none) }
           pure true
+    | "msk" =>
+      -- `MasterKey::unmarshal` copies the scalar and validates nothing (either flag)
+      match lqUnmarshalMsk comp bs with
+      | some s =>
+        setSt { st with lqMsks := st.lqMsks.push s }
+        liftE (expectToks op ["1", toString st.lqMsks.size, toHex 64 s] out); pure true
+      | none => failPS "lq_um msk: short buffer"
     | _ => pure false
   | _ => pure false
 
